@@ -1205,6 +1205,49 @@ def _vd_push_back(eng, st, args, ci):
     return UNIT
 
 
+@intrinsic(r'^(std::vec::)?Vec::<.*>::dedup_by::<', 'Vec::dedup_by (std semantics: same_bucket(&mut next, &mut last_kept), next is dropped when it returns true; closure = real MIR)')
+def _vec_dedup_by(eng, st, args, ci):
+    vref, f = args
+    seq = eng.read_ref(st, vref)
+    if not isinstance(seq, Seq):
+        raise Unsupported('dedup_by on %r' % (seq,))
+    n = len(seq.items)
+    if n < 2:
+        return UNIT
+    # state per live path: list of kept element values (the last one may be mutated by the closure)
+    live = [(st, [seq.items[0]])]
+    early = []
+    for j in range(1, n):
+        nxt = []
+        for (s, kept) in live:
+            cur = eng.ref_to(s, seq.items[j], True, 'dd_next')
+            last = eng.ref_to(s, kept[-1], True, 'dd_kept')
+            for (s2, kind, val) in eng.call_value(s, f, [cur, last], None):
+                if kind != 'ret':
+                    early.append((s2, kind, val))      # a panic inside the predicate is an outcome of the caller
+                    continue
+                cur_v = eng.read_ref(s2, cur)
+                last_v = eng.read_ref(s2, last)
+                t_ok = eng.feasible(s2, val)
+                f_ok = eng.feasible(s2, z3.Not(val))
+                if t_ok and f_ok:
+                    s3 = s2.fork()
+                    s3.assume(z3.Not(val))
+                    nxt.append((s3, kept[:-1] + [last_v, cur_v]))
+                    s2.assume(val)
+                    nxt.append((s2, kept[:-1] + [last_v]))
+                elif t_ok:
+                    nxt.append((s2, kept[:-1] + [last_v]))
+                elif f_ok:
+                    nxt.append((s2, kept[:-1] + [last_v, cur_v]))
+        live = nxt
+    res = list(early)
+    for (s, kept) in live:
+        eng.write_ref(s, vref, Seq(kept))
+        res.append((s, 'ret', UNIT))
+    return res
+
+
 @intrinsic(r'^(std::vec::)?Vec::<.*>::remove$', 'Vec::remove (concrete index)')
 def _vec_remove(eng, st, args, ci):
     v = eng.read_ref(st, args[0])
